@@ -84,7 +84,12 @@ pub fn valid_metadata(env: &Env) -> soroban_token_sdk::metadata::TokenMetadata {
 
 impl ItsWorld {
     pub fn new(rng: &mut Rng, chain_name: &[u8], hub_address: &[u8], n_users: usize) -> ItsWorld {
-        let mut u = U::new();
+        Self::new_at(rng, chain_name, hub_address, n_users, 100, 1_000_000)
+    }
+
+    /// Same fixture at another ledger sequence / timestamp (used for determinism twins).
+    pub fn new_at(rng: &mut Rng, chain_name: &[u8], hub_address: &[u8], n_users: usize, seq: u32, time: u64) -> ItsWorld {
+        let mut u = U::with_ledger(seq, time);
         let mut ring = KeyRing::default();
         let g_owner = u.principal();
         let g_operator = u.principal();
